@@ -19,7 +19,7 @@ RULE = ("worlds with three-phase mixed-sign constraint matrices (1-6 constraints
         "direction matrices (1-4 periods) scaled so that the most binding constraint sits at limit + k*tol, k in "
         "{-10,-2,-0.5,0.5,2,10}; non-trivial = probe within +-2 tolerances of a limit on a mixed-sign constraint with >=2 "
         "distinct phase angles; distinct = history signature + probe pattern")
-PROBES = ["probe", "algorithm_side_default_tolerances", "creeping_schedule_probe", "non_finite_entry_probe", "probe_within_2tol_mixed_sign", "explicit_tolerances", "rel_tol_dominates", "linear_probe", "multi_period",
+PROBES = ["probe", "negative_limit_probe", "algorithm_side_default_tolerances", "creeping_schedule_probe", "non_finite_entry_probe", "probe_within_2tol_mixed_sign", "explicit_tolerances", "rel_tol_dominates", "linear_probe", "multi_period",
           "negative_entries", "one_dim_vector", "constraint_free_world", "constraint_free_sorted_completed", "dict_omitted_rows",
           "executed_columns_checked", "invalid_schedule_warning_seen", "probe_after_reconfig", "exact_boundary_probe",
           "exactly_at_limit_plus_tol", "exact_linear_probe"]
@@ -359,6 +359,29 @@ def check(sc):
         if got != (m >= 0):
             out.add("C06/network_vs_phasor", "executed column t=%d: network says %s, definition margin %.3e" % (p["t"], got, m))
             break
+    # a constraint whose limit is negative (a mis-entered rating, a derating formula gone below zero): |aggregate| <= limit + tol
+    # cannot hold for any schedule, the idle one included - all three checkers have to say so
+    rneg = sub(sc["seed"], "negative_limit")
+    if rneg.random() < 0.06 and not out.viol:
+        import datetime as _dt
+        nwn = sut.ChargingNetwork()
+        for nm_ in ("a", "b"):
+            nwn.register_evse(sut.EVSE(nm_, max_rate=32), 208, rneg.choice([0, 30, -90]))
+        lim_ = -rneg.choice([5.0, 0.5, 40.0])
+        nwn.add_constraint(sut.Current(["a", "b"]), lim_, name="neg")
+        nwn.add_constraint(sut.Current(["a"]), 100.0, name="pos")
+        simn = sut.Simulator(nwn, sut.UncontrolledCharging(), sut.EventQueue(), _dt.datetime(2021, 1, 1), period=5, verbose=False)
+        ifn = sut.Interface(simn)
+        out.probe("negative_limit_probe")
+        for vec_ in ([0.0, 0.0], [rneg.uniform(0, 3), 0.0], [abs(lim_), 0.0]):
+            A_ = np.array([[vec_[0]], [vec_[1]]], dtype=float)
+            verdicts = {"network": bool(nwn.is_feasible(A_)), "interface": bool(ifn.is_feasible({"a": [vec_[0]], "b": [vec_[1]]})),
+                        "algorithm": bool(sut.algo_utils.infrastructure_constraints_feasible(A_, ifn.infrastructure_info()))}
+            bad_ = [k_ for k_, v_ in verdicts.items() if v_]
+            if bad_:
+                out.add("C06/%s_vs_phasor" % bad_[0], "constraint with limit %r A: %s check calls schedule %s feasible (|aggregate| <= limit + tolerance "
+                        "is impossible); verdicts %s" % (lim_, bad_[0], vec_, verdicts))
+                break
     nwarn = sum(1 for c, msg in tr.warnings if "Invalid schedule provided" in msg)
     if nwarn:
         out.probe("invalid_schedule_warning_seen", nwarn)
